@@ -143,76 +143,47 @@ def r025_num(cg, rep):
             rep.ob('R02.5', key, ok, '%s; emitted: %r' % (why, asm), where=where, facts={'trace': txt})
         if n == 0:
             rep.undecided('R02.5', key, 'no returning path')
-    # the C types of the unions that take the bit pattern (typed AST): float -> float member, double -> double member
-    fn = cg.cu.fn('gen_expr')
-    unions = []
-    for d in fn.find('VarDecl'):
-        t = d.type or ''
-        if t.startswith('union'):
-            init = [c for c in d.inner if c.kind == 'InitListExpr']
-            if init and 'field' in init[0].d:
-                unions.append((init[0].d['field'].get('name'), init[0].d['field'].get('type', {}).get('qualType')))
-    want = {'float': 0, 'double': 0, 'long double': 0}
-    for (fname, ftype) in unions:
-        if ftype in want:
-            want[ftype] += 1
-    # long double: the union member is assigned rather than initialised
-    for a in fn.walk():
-        if a.kind == 'BinaryOperator' and a.opcode == '=' and a.inner[0].strip().kind == 'MemberExpr' and (a.inner[0].dtype or a.inner[0].type) == 'long double' \
-                and 'fval' in a.inner[1].src():
-            want['long double'] += 1
-    for t, c in want.items():
-        rep.ob('R02.5', '%s:gen_expr:ND_NUM:union-member/%s' % (U, t.replace(' ', '-')), c >= 1,
-               'no bit-pattern union in gen_expr is initialised through a member of type %s (found %r): the constant would be taken in another format' % (t, unions), where=where)
+    # the format in which the bit pattern is taken: the last format node->fval is converted to before its bytes become the immediate(s)
+    # (value flow, sa/lib_c02lit.py: union initialised or assigned, any member / variable names, if or switch)
+    from ..lib_c02lit import emission_chains, field_prec, PREC as LPREC, NAME as LNAME
+    pnode, qnode = field_prec(cg.P, 'parse.c', 'Node', 'fval')
+    ech = emission_chains(cg)
+    for cat, t in (('float', 'float'), ('double', 'double'), ('ldouble', 'long double')):
+        key = '%s:gen_expr:ND_NUM:union-member/%s' % (U, t.replace(' ', '-'))
+        chains, und = ech[cat]
+        if chains is None or pnode is None:
+            rep.undecided('R02.5', key, und or 'Node.fval is not of a floating type', where=where); continue
+        last = sorted(set(min(ch + [pnode]) for ch in chains))
+        rep.ob('R02.5', key, last == [LPREC[t]],
+               'the bit pattern of a %s constant is taken from a value in the format %s: the constant would be emitted in another format' % (t, ' / '.join(LNAME.get(p, str(p)) for p in last)), where=where)
 
 
 def r026(P, rep):
-    rep.rule('R02.6', 'floating literals: suffix f/F -> float, l/L -> long double, none -> double; the text is converted with the precision of long double (no early narrowing)', floor=3)
+    rep.rule('R02.6', 'floating literals: suffix f/F -> float, l/L -> long double, none -> double; the spelling is converted ONCE, directly to the format of the literal\'s type '
+             '(text->binary at the precision of that type, widened only afterwards): a conversion at a narrower precision loses digits, one at a wider precision makes the later '
+             'narrowing a second rounding', floor=8)
     tu = P.unit('tokenize.c')
     fn = tu.fn('convert_pp_number')
     if fn is None:
         raise AnalysisBroken('tokenize.c: convert_pp_number vanished')
     where = 'tokenize.c:%d' % fn.line
-    calls = fn.calls(('strtold', 'strtod', 'strtof'))
-    rep.ob('R02.6', 'tokenize.c:convert_pp_number:parses-at-long-double-precision', len(calls) == 1 and calls[0].callee() == 'strtold',
-           'the literal text is converted by %r: a long double literal (or one that rounds differently) loses precision before it is typed' % [c.callee() for c in calls], where=where)
-    # the variable receiving it
-    ok = False
-    for d in fn.find('VarDecl'):
-        if any(c.callee() == 'strtold' for c in d.calls()):
-            ok = (d.dtype or d.type) == 'long double'
-    rep.ob('R02.6', 'tokenize.c:convert_pp_number:value-held-as-long-double', ok, 'the converted value is not held in a long double object', where=where)
-    # suffix table
-    arms = {}
-    for ifs in fn.find('IfStmt'):
-        c = ifs.inner[0]
-        src = c.src()
-        for ch in ("'f'", "'F'", "'l'", "'L'", '102', '70', '108', '76'):
-            pass
-    # semantic: interpret with Engine I
-    from ..interp import Interp, Sym, Obj, Term
-    it = Interp(P, tu, {'opaque': ['convert_pp_int', 'strtold', 'error_tok'], 'track_stores': True,
-                        'models': {}})
+    # value: per type of literal, the chain of formats from the spelling to Token.fval (sa/lib_c02lit.py, stage 1)
+    from ..lib_c02lit import r_text_to_token
+    chains = r_text_to_token(P, rep, 'R02.6')
+    # type: per suffix, the type object stored into the token on every returning path
     res_by_suffix = {}
-    for suffix in ('f', 'F', 'l', 'L', ''):
-        def model_strtold(it_, ctx, n, args, suffix=suffix):
-            from ..interp import _Ref
-            endp = args[1]
-            if isinstance(endp, _Ref):
-                endp.place.set(it_, suffix)      # *end = rest of the text
-            return Sym('val', 'long double')
-        it2 = Interp(P, tu, {'models': {'strtold': model_strtold, 'convert_pp_int': lambda it_, ctx, n, a: 0}, 'track_stores': True})
-        for ctx, out in it2.explore('convert_pp_number', lambda ctx: [Obj('Token', lazy=True, label='tok')]):
-            if out[0] != 'ret':
-                continue
-            st = [e for e in ctx.events if e[0] == 'fstore' and e[2] == 'ty' and getattr(e[1], 'label', '') == 'tok']
-            if st:
-                v = st[-1][4]
-                res_by_suffix[suffix] = getattr(v, 'label', None) or repr(v)
+    for suffix, res in chains.items():
+        labels = sorted(set(str(tl) for tl, core, chain in res))
+        if labels:
+            res_by_suffix[suffix] = labels[0] if len(labels) == 1 else repr(labels)
     want = {'f': 'ty_float', 'F': 'ty_float', 'l': 'ty_ldouble', 'L': 'ty_ldouble', '': 'ty_double'}
     for sfx, w in want.items():
         got = res_by_suffix.get(sfx)
-        rep.ob('R02.6', 'tokenize.c:convert_pp_number:suffix-%s' % (sfx or 'none'), got is not None and w in str(got),
+        key = 'tokenize.c:convert_pp_number:suffix-%s' % (sfx or 'none')
+        if got is not None and got.startswith('['):
+            rep.undecided('R02.6', key, 'the type given to a literal does not depend only on what follows the digits (types %s for suffix %r): the suffix is not read where strtold/strtod/strtof stop' % (got, sfx), where=where)
+            continue
+        rep.ob('R02.6', key, got is not None and w in str(got),
                'a floating literal with suffix %r gets type %r, C11 6.4.4.2p4 prescribes %s' % (sfx, got, w[3:]), where=where)
 
 
@@ -224,11 +195,13 @@ def run(P, rep, tier):
                        'set and restored, width of the integer side). Bit patterns for concrete operands are not computed: the hardware\'s IEEE arithmetic is trusted. '
                        'Parser lowerings of ++/--/op= with floating operands are interpreted on concrete operand trees and the typed result is evaluated over a symbolic store in which '
                        'floating operations are rounding (non-invertible) operations. include/float.h is read through clang and compared with the characteristics computed from the '
-                       'formats the compiler uses.')
+                       'formats the compiler uses. A floating constant is followed from its spelling to the emitted bytes (text->binary function, carriers Token.fval / Node.fval, union member in gen_expr, '
+                       'literal arm of eval_double) as a sequence of formats: it must be the single rounding to the constant\'s type.')
     rep.assumptions += ['Intel SDM semantics of SSE/x87 mnemonics incl. GNU as operand-order quirks (confirmed against the assembler once, sa/x86.py)',
                         'children leave float/double in %xmm0 and long double in %st(0)',
                         'R02.12/R02.13 evaluate the lowered tree for a single thread (a compare-exchange whose expected value was just read from the object succeeds); compiler temporaries do not alias program objects',
-                        'R02.14: clang-14 is the reader of include/float.h (macro table, type and value of each expansion); macros defined through names the header does not define are reported undecided']
+                        'R02.14: clang-14 is the reader of include/float.h (macro table, type and value of each expansion); macros defined through names the header does not define are reported undecided',
+                        'R02.6/R02.15: strtof / strtod / strtold of the host round correctly to 24 / 53 / 64 digits (glibc does); a C conversion or store to a floating type of p digits rounds to p digits; the host long double is the x87 format']
     rep.rule('R02.1', 'every conversion cell with a floating source or target: signed/unsigned and width handling of the integer side, truncation toward zero with the x87 control word restored, precision of the floating side', floor=60)
     r015(cg, rep, 'fp')
     from ..lib_types import r_common_type, r_add_type
@@ -260,6 +233,11 @@ def run(P, rep, tier):
     r024(cg, rep)
     r025_num(cg, rep)
     r026(P, rep)
+    from ..lib_c02lit import r_literal_path
+    rep.rule('R02.15', 'a floating constant reaches the emitted bytes with the single rounding of R02.6: Token.fval and Node.fval hold every floating type\'s values, the parser copies the '
+             'value between them through no narrower format, gen_expr takes the bytes of (T)node->fval and eval_double returns (T)node->fval for a node of type T - one conversion, '
+             'directly to T, which is value preserving for a correctly rounded constant (a stop at another format in between is a further rounding)', floor=9)
+    r_literal_path(P, rep, 'R02.15', cg)
     # value semantics of the trees the parser builds for A++ / A-- / A op= B with floating operands (sa/lib_c02.py)
     from ..lib_c02 import r_incdec, r_compound, r_float_h
     rep.rule('R02.12', 'postfix ++ / -- on a float, double or long double object (variable, dereference, member; plain or _Atomic): the value of the expression is the value the '
